@@ -20,6 +20,8 @@ func init() {
 			{"UNKNOWN-FIELD-SKIP", ruleUnknownFieldSkip},
 			{"VERSION-SEARCH-EXHAUSTIVE", ruleVersionSearchExhaustive},
 			{"FIELD-IDS-ALWAYS", ruleFieldIDsAlways},
+			{"FIELD-IDS-EVERY-FIELD", ruleFieldIDsEveryField},
+			{"EVENT-COLLECTION-ID", ruleEventCollectionID},
 			{"VERSION-FLIP", ruleVersionFlip},
 			{"MERGE-FRESH-COLLECTION", ruleMergeFreshCollection},
 			{"TXN-SHAPE", ruleTxnShape},
